@@ -600,6 +600,8 @@ const BigIntWordSize = int(unsafe.Sizeof(big.Word(0)))
 
 var bigIntWordSizeAsBig = big.NewInt(int64(BigIntWordSize))
 
+var bigIntWordBitSizeAsBig = big.NewInt(int64(bigIntWordBitSize))
+
 func BigIntByteLength(v *big.Int) int {
 	// NOTE: big.Int.Bits() actually returns a slice of words,
 	// []big.Word, where big.Word = uint,
@@ -671,10 +673,11 @@ func NewMulBigIntMemoryUsage(a, b *big.Int) MemoryUsage {
 }
 
 func NewModBigIntMemoryUsage(a, b *big.Int) MemoryUsage {
-	// if a < b or |b| == 1:
+	// if abs(a) < abs(b) or |b| == 1:
 	//     |a| + 4
 	// else if |b| < 100:
-	//     |a| - |b| + 5
+	//     quotient: |a| - |b| + 1, remainder: |b|
+	//     |a| + 5
 	// else:
 	//     recursion_cost = pointer_size + 9 * |b| + floor(|a| / |b|) + 12
 	//     recursion_depth = 2 * BitLen(b)
@@ -684,10 +687,10 @@ func NewModBigIntMemoryUsage(a, b *big.Int) MemoryUsage {
 	bWordLength := len(b.Bits())
 
 	var resultWordLength int
-	if a.Cmp(b) < 0 || bWordLength == 1 {
+	if a.CmpAbs(b) < 0 || bWordLength == 1 {
 		resultWordLength = aWordLength + 4
 	} else if bWordLength < 100 {
-		resultWordLength = aWordLength - bWordLength + 5
+		resultWordLength = aWordLength + 5
 	} else {
 		recursionCost := int(unsafe.Sizeof(uintptr(0))) +
 			9*bWordLength +
@@ -813,7 +816,7 @@ func NewBitwiseRightShiftBigIntMemoryUsage(a, b *big.Int) MemoryUsage {
 	//     if b == 0:
 	//         |a| + 4
 	//     else:
-	//         |a| - b/word_size + 4
+	//         max(|a| - b/word_bit_size, 0) + 4
 	// else:
 	//     |a| + 4
 
@@ -825,13 +828,19 @@ func NewBitwiseRightShiftBigIntMemoryUsage(a, b *big.Int) MemoryUsage {
 			resultWordLength = aWordLength + 4
 		} else {
 			// TODO: meter the allocation of the metering itself
-			shiftByteLengthBig := new(big.Int).Div(b, bigIntWordSizeAsBig)
+			// NOTE: the shift count b is in bits, so the number of words shifted out
+			// is b divided by the number of bits (not bytes) per word.
+			shiftWordLengthBig := new(big.Int).Div(b, bigIntWordBitSizeAsBig)
 			// TODO: handle big int shifts
-			if !shiftByteLengthBig.IsInt64() {
+			if !shiftWordLengthBig.IsInt64() {
 				panic(invalidLeftShift)
 			}
-			shiftByteLength := int(shiftByteLengthBig.Int64())
-			resultWordLength = aWordLength - shiftByteLength + 4
+			// At most all words of a are shifted out
+			shiftWordLength := min(
+				shiftWordLengthBig.Int64(),
+				int64(aWordLength),
+			)
+			resultWordLength = aWordLength - int(shiftWordLength) + 4
 		}
 	} else {
 		resultWordLength = aWordLength + 4
